@@ -41,6 +41,7 @@ def run_config(cfg, strategy=None):
     import frappy.secnode as sn
     import frappy.server as srvmod
     from frappy.datatypes import FloatRange
+    from frappy.dynamic import Pinata
     from frappy.modules import Attached, Communicator, Module
     from frappy.params import Parameter
 
@@ -130,10 +131,28 @@ def run_config(cfg, strategy=None):
                 ev(ev='write', m=name)
                 return value
             body['write_w'] = write_w
+        children = cfg.get('pinata', {}).get(name)
+        if children is not None:
+            def scanModules(self):
+                for ch in children:
+                    yield ch, child_cfg(ch)
+            body['scanModules'] = scanModules
+            return type('L_' + name, (Pinata,), body)
         return type('L_' + name, (Module,), body)
 
+    def child_cfg(name):
+        c = {'cls': make_class(name), 'description': name}
+        for k, t in enumerate(cfg['att'].get(name, [])):
+            c[f'att{k}'] = t
+        if name in cfg.get('writes', []):
+            c['w'] = {'value': 1.0}
+        return c
+
     module_cfg = {}
+    dynamic = {ch for chs in cfg.get('pinata', {}).values() for ch in chs}
     for name in cfg['order']:
+        if name in dynamic:
+            continue        # created by its pinata while the node scans for modules
         c = {'cls': make_class(name), 'description': name}
         for k, t in enumerate(cfg['att'].get(name, [])):
             c[f'att{k}'] = t
